@@ -170,6 +170,11 @@ omit hc in
 theorem io_read_sess' {w w' : World} {n : Nat} {r : ReadRes} (h : w.ioRead n = (w', r)) : w'.sess = w.sess := by
   have := ioRead_sess w n; rw [h] at this; exact this
 
+theorem discFail_inv (w : World) (ctx : StepCtx) (h : P w.sess) : P (w.discFail ctx).sess := by
+  rcases discFail_cases w ctx with ⟨e, _⟩ | ⟨e, _⟩ <;> rw [e]
+  · exact h
+  · simpa using hc.handleDisconnect _ h
+
 theorem step_stepReturned (fuel : Nat) (ih : MachineInv P fuel) :
     ∀ w ctx adv, P w.sess → P (stepReturned (fuel + 1) w ctx adv).sess := by
   intro w ctx adv h
@@ -199,7 +204,7 @@ theorem step_doStepWrite (fuel : Nat) (ih : MachineInv P fuel) :
   simp only [doStepWrite]
   split
   · rename_i w' heq; simp [io_write_sess' heq, h]
-  · rename_i w' heq; simp [io_write_sess' heq, h]
+  · rename_i w' heq; simp only [finishErr_sess]; exact discFail_inv hc _ _ (by rw [io_write_sess' heq]; exact h)
   · rename_i w' k heq; simpa [io_write_sess' heq] using hc.handleDisconnect _ h
   · rename_i w' count heq
     have h2 : P (w'.setWritten pkt (wr + count) len).sess := by
@@ -214,13 +219,13 @@ theorem step_performStep (fuel : Nat) (ih : MachineInv P fuel) :
   obtain ⟨_, _, i3, i4, i5, _⟩ := ih
   simp only [performStep]
   split
-  · simpa using h
+  · simpa using discFail_inv hc _ _ h
   · exact i5 _ _ _ h
   · split
-    · simpa using h
+    · simpa using discFail_inv hc _ _ h
     · exact i4 _ _ _ _ h
   · split
-    · simpa using h
+    · simpa using discFail_inv hc _ _ h
     · exact i3 _ _ _ _ _ _ _ h
 
 theorem step_flushLoop (fuel : Nat) (ih : MachineInv P fuel) :
@@ -229,7 +234,7 @@ theorem step_flushLoop (fuel : Nat) (ih : MachineInv P fuel) :
   obtain ⟨_, i2, _, _, _, i6, _⟩ := ih
   simp only [flushLoop]
   split
-  · simpa using h
+  · simpa using discFail_inv hc _ _ h
   · rename_i w' heq
     have h' := maybeQueuePingreq_inv hc w w' w.now h heq
     split
